@@ -85,3 +85,32 @@ Theorem C02_engine_writes_only_free_pages : forall (st : Engine.db) (ops : list 
        ~ In x (EngineRefines.live_of st (EngineOwnDefs.Rof st)) /\ (2 <= x)%N /\ (x < Engine.d_np st')%N).
 Proof. exact EngineCow.run_tx_writes_from_free. Qed.
 Print Assumptions C02_engine_writes_only_free_pages.
+
+(* ---- histories: ANY NUMBER of commit attempts in a row, each cut by a power loss (any point, any fate of every un-synced
+   write, torn header included), each starting from what the previous crash left. The invariant -- a header is selected and
+   every page it needs holds what its own or an earlier transaction wrote -- survives every attempt; what is selected is
+   the initial header or the header of one of the attempts; the target slot, evaluated on the disk as the crash left it,
+   is never the slot of the only valid header (the rule is read from write_data by the translator:
+   Consts.header_target_other_than_current). ---- *)
+From Jamm Require CrashHistories.
+Theorem C02_any_number_of_crashes : forall l d, CrashHistories.hist_inv d -> CrashHistories.attempts_ok d l ->
+  CrashHistories.hist_inv (CrashHistories.run_attempts d l).
+Proof. exact CrashHistories.crash_history_inv. Qed.
+Print Assumptions C02_any_number_of_crashes.
+
+Theorem C02_history_selects_a_committed_header : forall l d cur0, select d = Some cur0 -> CrashHistories.hist_inv d ->
+  CrashHistories.attempts_ok d l ->
+  exists h, select (CrashHistories.run_attempts d l) = Some h /\ (h = cur0 \/ In h (map CrashHistories.a_newh l)).
+Proof. exact CrashHistories.crash_history_selects. Qed.
+Print Assumptions C02_history_selects_a_committed_header.
+
+Theorem C02_target_slot_rule_from_source : header_target_other_than_current = true.
+Proof. exact CrashHistories.header_target_pinned. Qed.
+
+(* writing the slot with the lower RAW tx id instead (validity ignored) loses every header in two crashes: computed *)
+Theorem C02_other_target_rule_refuted :
+  select CrashHistories.ex_two = Some (mkHeader 5 [4%N]) /\
+  select (write_slot CrashHistories.ex_two false SInvalid) = None /\
+  select (write_slot CrashHistories.ex_two (negb (current_slot CrashHistories.ex_two)) SInvalid) = Some (mkHeader 5 [4%N]).
+Proof. exact CrashHistories.two_crashes_other_rule_loses_all. Qed.
+Print Assumptions C02_other_target_rule_refuted.
